@@ -44,17 +44,21 @@ def VLOOKUP(
 
     col_index_num = int(col_index_num)
 
+    if col_index_num < 1:
+        raise xlerrors.ValueExcelError(
+            'col_index_num is less than 1')
+
     if col_index_num > len(table_array.values[0]):
         raise xlerrors.ValueExcelError(
             'col_index_num is greater than the number of cols in table_array')
 
-    table_array = table_array.set_index(0)
+    # The first row whose first cell equals the lookup value decides.
+    for row in table_array.values:
+        if row[0] == lookup_value:
+            return row[col_index_num - 1]
 
-    if lookup_value not in table_array.index:
-        raise xlerrors.NaExcelError(
-            '`lookup_value` not in first column of `table_array`.')
-
-    return table_array.loc[lookup_value].values[0]
+    raise xlerrors.NaExcelError(
+        '`lookup_value` not in first column of `table_array`.')
 
 
 @xl.register()
